@@ -200,7 +200,7 @@ Proof.
   pose proof R' as R0. apply run_cons_inv in R0. destruct R0 as [G' _].
   unfold parse_token. unfold bind at 1. rewrite (peek_at' _ _ _ G' L). rewrite Ea, Ed.
   unfold lift_kv. unfold bind at 1.
-  rewrite (Hsim d' F' st' e' HD' HI' R' (eof_nxt _ _ _ _ E) Lf). reflexivity.
+  rewrite (Hsim d' F' st' e' HD' HI' R' E Lf). reflexivity.
 Qed.
 
 (* ---------- every other first character yields a delimiter or a character literal ---------- *)
@@ -500,6 +500,7 @@ Proof.
   destruct (c =? 46); [unfold abs_real, abs_real_gen; kp|].
   destruct (c =? 101); [unfold abs_int_exp; kp|].
   destruct (c =? 35); [unfold abs_based; kp|].
+  destruct (c =? 58); [apply kindP_bind; intros [|]; [unfold abs_based; kp|exact Hplain]|].
   destruct (is_bs_letter c); [|exact Hplain].
   unfold abs_bit_string. apply kindP_bind; intros [iv it]. apply kindP_bind; intros [bs|]; [apply kindP_parse_bit_string|kp].
 Qed.
